@@ -34,7 +34,7 @@ type invFile struct {
 }
 
 // apiInvView walks one view. Permission errors of the view's user are not violations (the subtree is skipped).
-func apiInvView(v avfs.VFS) string {
+func apiInvView(v avfs.VFS, exact bool) string {
 	var files []*invFile
 	nodes := 0
 	var bad string
@@ -116,9 +116,9 @@ func apiInvView(v avfs.VFS) string {
 	for _, f := range files {
 		st := v.ToSysStat(f.info)
 		if int(st.Nlink()) != len(f.paths) {
-			// names in directories the user cannot list are not counted: only flag when the walk saw MORE names than Nlink,
-			// or fewer while every directory was readable (administrator view)
-			if int(st.Nlink()) < len(f.paths) || v.User().IsAdmin() {
+			// a Sub view does not see the names outside its subtree, and names in directories its user cannot list are
+			// not counted: there only MORE names than Nlink is an error; the administrator's view of the whole tree is exact
+			if int(st.Nlink()) < len(f.paths) || exact {
 				return fmt.Sprintf("nlink-%d-but-%d-names:%s", st.Nlink(), len(f.paths), tok(strings.Join(f.paths, ",")))
 			}
 		}
@@ -136,11 +136,11 @@ func apiInvView(v avfs.VFS) string {
 }
 
 func (w *fsWorld) apiInv() string {
-	if r := apiInvView(w.base); r != "" {
+	if r := apiInvView(w.base, true); r != "" {
 		return "0:base:" + r
 	}
 	for i, v := range w.views {
-		if r := apiInvView(v); r != "" {
+		if r := apiInvView(v, false); r != "" {
 			return fmt.Sprintf("0:view%d:%s", i, r)
 		}
 	}
